@@ -25,6 +25,7 @@ import (
 	"github.com/blugelabs/bluge/analysis/lang/fa"
 	"github.com/blugelabs/bluge/analysis/lang/fr"
 	"github.com/blugelabs/bluge/analysis/lang/hi"
+	"github.com/blugelabs/bluge/analysis/lang/in"
 	"github.com/blugelabs/bluge/analysis/lang/it"
 	"github.com/blugelabs/bluge/analysis/lang/pt"
 
@@ -39,6 +40,7 @@ var stemFilters = map[string]func() analysis.TokenFilter{
 	"fa_normalize":  func() analysis.TokenFilter { return fa.NormalizeFilter() },
 	"ckb_normalize": func() analysis.TokenFilter { return ckb.NormalizeFilter() },
 	"ckb_stem":      func() analysis.TokenFilter { return ckb.StemmerFilter() },
+	"in_normalize":  func() analysis.TokenFilter { return in.NormalizeFilter() },
 	"hi_normalize":  func() analysis.TokenFilter { return hi.NormalizeFilter() },
 	"hi_stem":       func() analysis.TokenFilter { return hi.StemmerFilter() },
 	"es_light":      func() analysis.TokenFilter { return es.LightStemmerFilter() },
@@ -49,7 +51,7 @@ var stemFilters = map[string]func() analysis.TokenFilter{
 }
 
 var stemNames = []string{"de_normalize", "de_light", "ar_normalize", "ar_stem", "fa_normalize", "ckb_normalize", "ckb_stem",
-	"hi_normalize", "hi_stem", "es_light", "it_light", "pt_light", "fr_light", "fr_min"}
+	"in_normalize", "hi_normalize", "hi_stem", "es_light", "it_light", "pt_light", "fr_light", "fr_min"}
 
 func obsBits(term []byte, f func(rune) bool) string {
 	var b strings.Builder
@@ -101,6 +103,19 @@ func execStem(w []string, out func(string, string), st *hlib.Stats) {
 	switch name {
 	case "fr_light":
 		op += " l=" + obsBits(term, unicode.IsLetter)
+	case "in_normalize":
+		// s=: for every rune, the index (by base) of the script table that contains it, '-' for none
+		var b strings.Builder
+		for _, r := range bytes.Runes(term) {
+			c := byte('-')
+			for i := 0; i < 9; i++ {
+				if unicode.Is(scriptTables[i].t, r) {
+					c = byte('0' + i)
+				}
+			}
+			b.WriteByte(c)
+		}
+		op += " s=" + b.String()
 	case "ckb_normalize":
 		op += " c=" + obsBits(term, func(r rune) bool { return unicode.In(r, unicode.Cf) })
 	}
